@@ -356,6 +356,52 @@ pub fn run(ctx: &RunCtx) -> i32 {
         f(&mut r);
         shared.merge(r);
     });
+    // (d) deep messages: large offsets / indices, repeats, rotations of every kind, quads (menu::deep_msgs)
+    {
+        let deep = menu::deep_msgs(thorough);
+        let n = deep.len();
+        deep.par_chunks(64).for_each(|ch| {
+            let mut r = Report::new();
+            for lm in ch {
+                roundtrip(lm, None, &mut r);
+                let mut with_tail = lm.clone();
+                with_tail.attrs.extend_from_slice(menu::TAILS[7]);
+                roundtrip(&with_tail, Some(&keyed), &mut r);
+            }
+            shared.merge(r);
+        });
+        let mut r = Report::new();
+        r.sym_n("deep-messages", 2 * n as u64);
+        shared.merge(r);
+    }
+    // offset family (menu::offset_msgs): a subject attribute behind a filler at every body offset of menu::offset_points,
+    // including message offsets beyond 65,535; and XOR-* addresses whose wire form is a special address
+    {
+        let xs = vec![vec![L::Priority(1)], vec![L::Software("ab".into()), L::XorMappedAddress(menu::addrs(true)[1].clone())]];
+        let tails = vec![vec![], vec![L::Mi, L::Sha, L::Fp]];
+        let msgs = menu::offset_msgs(thorough, &xs, &tails, [0x71; 12]);
+        let n = msgs.len();
+        msgs.par_chunks(32).for_each(|ch| {
+            let mut r = Report::new();
+            for lm in ch {
+                let k = if lm.attrs.iter().any(|a| matches!(a, L::Mi | L::Sha)) { Some(&keyed) } else { None };
+                roundtrip(lm, k, &mut r);
+            }
+            shared.merge(r);
+        });
+        let mut r = Report::new();
+        r.sym_n("offset-family", n as u64);
+        for tid in [menu::RFC5769_TID, [0u8; 12], [0xFF; 12]] {
+            for a in menu::xor_special_addrs(&tid) {
+                for l in [L::XorMappedAddress(a.clone()), L::XorPeerAddress(a.clone()), L::XorRelayedAddress(a.clone()), L::MappedAddress(a.clone())] {
+                    roundtrip(&menu::lmsg(1, 2, tid, vec![l.clone()]), None, &mut r);
+                    roundtrip(&menu::lmsg(1, 2, tid, vec![l, L::Priority(9)]), None, &mut r);
+                }
+            }
+        }
+        r.sym("xor-special-addresses");
+        shared.merge(r);
+    }
     // keys: each tail under each key of the menu with two bodies
     {
         let mut r = Report::new();
@@ -392,7 +438,7 @@ pub fn run(ctx: &RunCtx) -> i32 {
         Finish {
             level: "exploration",
             rule: format!(
-                "every message with 0..=2 body attributes over the {}-entry value menu in every order x 8 tails, every triple over the {}-entry menu x 2 tails, every header of the header menu on singles, full scalar sweeps (u16 fields, error codes 300..=699, 128x512 ICMP, string lengths 0..=509, blob lengths 0..=1024, all 16384 message types, XOR under 123 ids; as non-last and as last attribute: every blob length 0..=1030, every string length, a walking byte through every address byte of all 7 address attributes, every single-bit integer value and its complement, lists of every length 0..=8); a case is non-trivial when it was built, encoded, decoded and compared equal (index tuples are distinct by construction)",
+                "every message with 0..=2 body attributes over the {}-entry value menu in every order x 8 tails, every triple over the {}-entry menu x 2 tails, every header of the header menu on singles, full scalar sweeps (u16 fields, error codes 300..=699, 128x512 ICMP, string lengths 0..=509, blob lengths 0..=1024, all 16384 message types, XOR under 123 ids; as non-last and as last attribute: every blob length 0..=1030, every string length, a walking byte through every address byte of all 7 address attributes, every single-bit integer value and its complement, lists of every length 0..=8); deep messages without and with the full tail (every reduced-menu value at body offsets around 256 / 1024 / 4096 (thorough: 256..32768 in powers of two) behind one long filler and behind a run of 8-byte attributes, 3..=257 (thorough 1000) copies of 10 attributes, every rotation and reversal of one-value-per-kind, every 4-sequence over 9 kinds); the offset family (PRIORITY, and SOFTWARE + XOR-MAPPED-ADDRESS, behind a filler - one DATA blob or a run of 512-byte SOFTWARE attributes - at every 4-aligned body offset 0..=4200 (thorough 16,400), around every multiple of 4096 (thorough 1024) and at every offset 65,300..=65,532, without and with the full tail, bodies up to the 65,532-byte maximum); XOR-* addresses whose wire form is ::, ::1, ::ffff:a.b.c.d or all ones under 3 ids; a case is non-trivial when it was built, encoded, decoded and compared equal (index tuples are distinct by construction)",
                 n_full, n_tri
             ),
             assumptions: vec![
@@ -400,7 +446,7 @@ pub fn run(ctx: &RunCtx) -> i32 {
                 "USERNAME is compared after OpaqueString enforcement (hand-written R-strings table)".into(),
                 "PASSWORD-ALGORITHM with empty parameters and with no parameters are the same logical value".into(),
             ],
-            required_symbols: vec!["sweep-u16", "sweep-message-types", "sweep-non-last-lengths-addresses-bits-lists", "key-menu", "Nonce", "XorMappedAddress", "Icmp"],
+            required_symbols: vec!["deep-messages", "offset-family", "xor-special-addresses", "sweep-u16", "sweep-message-types", "sweep-non-last-lengths-addresses-bits-lists", "key-menu", "Nonce", "XorMappedAddress", "Icmp"],
             min_outcomes: 2,
             exhaustive: true,
             bounds: json!({"L_full_menu": 2, "L_triples_menu": n_tri, "menu": n_full, "tails": 8}),
